@@ -267,6 +267,7 @@ func checkC19(c *Ctx, r *Report) {
 	r.rule("C19.R1", "the answer is correlated with the request before it is returned to the charging operation", 2)
 	r.rule("C19.R2", "the Diameter answer handler cannot block for ever on the hand-over channel", 2)
 	r.rule("C19.R4", "the connection of a request that gives up is closed on every path (an abandoned request's answer cannot be delivered later; shared with C18.R1)", 2)
+	r.rule("C19.R6", "a client function cannot wait for ever: every blocking select has a time-out case, and no bare receive waits on a channel that lives longer than the call (a per-subscriber timer that already fired and was consumed never delivers again)", 4)
 	r.rule("C19.R5", "each client waits on, and empties before it sends, the very channel its own answer handler delivers into", 6)
 	r.rule("C19.R3", "the per-subscriber answer channel has one kind of receiver: the client function that sent the request", 2)
 
@@ -340,6 +341,7 @@ func checkC19(c *Ctx, r *Report) {
 
 	c19SingleConsumer(c, r, "C19.R3")
 	c19OwnChannel(c, r, "C19.R5")
+	c19BoundedWaits(c, r, "C19.R6")
 
 	// R4: as long as answers are not correlated (R1), what keeps the answer of a
 	// timed-out request away from the subscriber's next request is that the
@@ -358,6 +360,13 @@ func checkC19(c *Ctx, r *Report) {
 			}
 			nd++
 			ok2, why := connReleased(c, f, call)
+			if ok2 && strings.HasPrefix(why, "the connection is cached") {
+				// bounded (C18), but the next request of the subscriber uses the same connection:
+				// a request that gives up after it was written has to close it
+				if bad := c19GiveUpCloses(c, f); bad != "" {
+					ok2, why = false, "the connection is kept for the subscriber's next request and "+bad
+				}
+			}
 			r.check(ok2, "C19.R4", fmt.Sprintf("%s|%s", fnKey(f), obj.Name()), posOf(c, ins), why, why+": the connection of a request that timed out stays open, so its late answer is still delivered into the subscriber's channel and is taken as the answer of the next request")
 		})
 		if nd == 0 {
@@ -395,6 +404,112 @@ func checkC19(c *Ctx, r *Report) {
 			if nsend == 0 {
 				r.viol("C19.R2", key, c.rel(f.Pos()), "answer handler does not hand the answer over")
 			}
+		}
+	}
+}
+
+// c19GiveUpCloses: every error return of the client function that lies behind the write of the
+// request passes a Close of a Diameter connection.  "" when it does.
+func c19GiveUpCloses(c *Ctx, f *ssa.Function) string {
+	var writes []ssa.Instruction
+	closerBlocks := map[*ssa.BasicBlock]bool{}
+	eachInstr(f, func(b *ssa.BasicBlock, _ int, ins ssa.Instruction) {
+		ci, ok := ins.(ssa.CallInstruction)
+		if !ok {
+			return
+		}
+		if _, isDefer := ins.(*ssa.Defer); isDefer {
+			return
+		}
+		cc := ci.Common()
+		if cc.IsInvoke() && cc.Method.Name() == "Close" && typeIs(cc.Value.Type(), diamPath, "Conn") {
+			closerBlocks[b] = true
+		}
+		if _, ok := callIs(ins, diamPath, "Message.WriteTo"); ok {
+			writes = append(writes, ins)
+		}
+	})
+	if len(writes) == 0 {
+		return "the request write was not found"
+	}
+	for _, w := range writes {
+		reach := reachableFrom(w.Block(), nil, nil, closerBlocks)
+		for _, ri := range returnsOf(f) {
+			if len(ri.Vals) == 0 || isNilConst(ri.Vals[len(ri.Vals)-1]) || !reach[ri.At] || closerBlocks[ri.At] {
+				continue
+			}
+			return "the exit at " + c.rel(ri.Point().Pos()) + " gives the request up after it was written without closing the connection"
+		}
+	}
+	return ""
+}
+
+// c19BoundedWaits (R6): the waits of the two client functions.
+func c19BoundedWaits(c *Ctx, r *Report, rule string) {
+	isTimerChan := func(f *ssa.Function, ch ssa.Value, localOnly bool) bool {
+		ch = stripConv(ch)
+		if call, ok := ch.(*ssa.Call); ok {
+			if obj := calleeObj(&call.Call); obj != nil && obj.Pkg() != nil {
+				if obj.Pkg().Path() == "time" && (obj.Name() == "After" || obj.Name() == "Tick") {
+					return true
+				}
+				if obj.Pkg().Path() == "context" && obj.Name() == "Done" {
+					return true
+				}
+			}
+			if call.Call.IsInvoke() && call.Call.Method.Name() == "Done" {
+				return true
+			}
+		}
+		if ld, ok := ch.(*ssa.UnOp); ok && ld.Op == token.MUL {
+			if fa, ok := ld.X.(*ssa.FieldAddr); ok && fieldName(fa) == "C" && typeIs(fa.X.Type(), "time", "Timer") {
+				if !localOnly {
+					return true
+				}
+				t := fa.X
+				for i := 0; i < 4; i++ {
+					t = resolveLocalLoad(t)
+				}
+				if call, ok := t.(*ssa.Call); ok {
+					if obj := calleeObj(&call.Call); obj != nil && obj.Pkg() != nil && obj.Pkg().Path() == "time" && (obj.Name() == "NewTimer" || obj.Name() == "AfterFunc") {
+						return true
+					}
+				}
+			}
+		}
+		return false
+	}
+	for _, a := range [][2]string{{"internal/abmf", "SendAccountDebitRequest"}, {"internal/rating", "SendServiceUsageRequest"}} {
+		f := c.fn(a[0], a[1])
+		n := 0
+		eachInstr(f, func(_ *ssa.BasicBlock, _ int, ins ssa.Instruction) {
+			switch x := ins.(type) {
+			case *ssa.Select:
+				n++
+				key := fmt.Sprintf("%s|select#%d", fnKey(f), n)
+				if !x.Blocking {
+					r.proven(rule, key, posOf(c, ins), "non-blocking select (default case)")
+					return
+				}
+				timed := false
+				for _, st := range x.States {
+					if st.Dir == types.RecvOnly && isTimerChan(f, st.Chan, false) {
+						timed = true
+					}
+				}
+				r.check(timed, rule, key, posOf(c, ins), "blocking select with a time-out case", "a blocking select without a time-out case: when the answer is lost the request never completes and keeps the subscriber locked")
+			case *ssa.UnOp:
+				if x.Op != token.ARROW {
+					return
+				}
+				n++
+				key := fmt.Sprintf("%s|receive#%d", fnKey(f), n)
+				r.check(isTimerChan(f, x.X, true), rule, key, posOf(c, ins), "receive from the channel of a timer made in this call",
+					"a bare receive from "+describe(x.X)+", a channel that lives longer than this call: whether it ever delivers depends on earlier requests (a per-subscriber timer whose tick an earlier time-out already consumed stays empty after Stop), so this request can wait for ever with the subscriber locked")
+			}
+		})
+		if n == 0 {
+			r.viol(rule, fnKey(f)+"|waits", c.rel(f.Pos()), "the client function does not wait for its answer at all")
 		}
 	}
 }
